@@ -126,31 +126,44 @@ func c02Done(c *Ctx) *RuleResult {
 	resp := p.LookupField(schedPkg, "task", "executeResponse")
 	// Done = true
 	nDone := 0
-	ast.Inspect(u.Decl.Body, func(n ast.Node) bool {
-		as, ok := n.(*ast.AssignStmt)
-		if !ok || len(as.Lhs) != 1 {
-			return true
+	// the message may be built by a helper of the streaming loop
+	doneUnits := []*FuncUnit{u}
+	for fn := range staticReach(p, []ast.Node{u.Decl.Body}, info) {
+		if hu := p.UnitOf(fn); hu != nil && fn.Pkg() == u.Fn.Pkg() {
+			doneUnits = append(doneUnits, hu)
 		}
-		sel, ok := ast.Unparen(as.Lhs[0]).(*ast.SelectorExpr)
-		if !ok || sel.Sel.Name != "Done" {
-			return true
-		}
-		nDone++
-		gs := flattenGuards(GuardsOf(info, u.Decl.Body, as))
-		okG := false
-		for _, g := range gs {
-			if be, ok := ast.Unparen(g.Cond).(*ast.BinaryExpr); ok && g.Pos && be.Op == token.NEQ && fieldOf(info, be.X) == resp && isNilIdent(be.Y) {
-				okG = true
+	}
+	for _, du := range doneUnits {
+		info := du.Info()
+		ast.Inspect(du.Decl.Body, func(n ast.Node) bool {
+			as, ok := n.(*ast.AssignStmt)
+			if !ok || len(as.Lhs) != 1 {
+				return true
 			}
-		}
-		construct := constructOf(u, "Done=true")
-		if okG && exprStr(as.Rhs[0]) == "true" {
-			r.ok(construct, posOf(p, as), "guarded by executeResponse != nil")
-		} else {
-			r.bad(c.Prop, construct, posOf(p, as), "a message is marked done without the task having its final response")
-		}
-		return true
-	})
+			sel, ok := ast.Unparen(as.Lhs[0]).(*ast.SelectorExpr)
+			if !ok || sel.Sel.Name != "Done" {
+				return true
+			}
+			if tv, ok := info.Types[sel.X]; !ok || !strings.Contains(tv.Type.String(), "longrunningpb.Operation") {
+				return true
+			}
+			nDone++
+			gs := flattenGuards(GuardsOf(info, du.Decl.Body, as))
+			okG := false
+			for _, g := range gs {
+				if be, ok := ast.Unparen(g.Cond).(*ast.BinaryExpr); ok && g.Pos && be.Op == token.NEQ && fieldOf(info, be.X) == resp && isNilIdent(be.Y) {
+					okG = true
+				}
+			}
+			construct := constructOf(u, "Done=true")
+			if okG && exprStr(as.Rhs[0]) == "true" {
+				r.ok(construct, posOf(p, as), "guarded by executeResponse != nil")
+			} else {
+				r.bad(c.Prop, construct, posOf(p, as), "a message is marked done without the task having its final response")
+			}
+			return true
+		})
+	}
 	if nDone == 0 {
 		r.bad(c.Prop, constructOf(u, "Done=true"), posOf(p, u.Decl), "no message is ever marked done")
 	}
